@@ -654,20 +654,42 @@ theorem tiling_of_cover (L : List (Iv Int)) (lo hi : Int) (hlt : lo < hi) (hp : 
       · rw [List.getLast?_cons_cons]; exact i2
       · simpa using i1.symm
 
-/-- **nonEntries_tiling** (both formulations) -/
-theorem nonEntries_tiling (t : ITier Int) (hwf : t.WF) (hne : t.es ≠ []) (h0 : 0 ≤ t.lo) :
+/-- where the tiling of `getNonEntries` starts: at time 0 — or at the first entry's start if that is negative (the code
+adds the leading blank `(0, firstStart)` only when `firstStart > 0`) -/
+def tileStart (t : ITier Int) : Int :=
+  match t.es.head? with
+  | some f => min 0 f.s
+  | none => 0
+
+theorem tileStart_nonneg (t : ITier Int) (hwf : t.WF) (h0 : 0 ≤ t.lo) : tileStart t = 0 := by
+  unfold tileStart
+  cases h : t.es.head? with
+  | none => rfl
+  | some f =>
+    have := hwf.inLo f (List.mem_of_mem_head? h)
+    simp only; omega
+
+/-- a tier without entries: the built-in `IndexError` (`self._entries[0]`), on the class and in the model — the
+property speaks of "a tier with entries" only -/
+theorem nonEntries_empty (t : ITier Int) (h : t.es = []) : t.getNonEntries = .error .IndexError := by
+  simp [ITier.getNonEntries, h]
+
+/-- **nonEntries_tiling** (both formulations), for EVERY well-formed tier with entries — also one that starts before
+time 0 (the former hypothesis `0 ≤ t.lo` is gone: the tiling then starts at `tileStart t`, which is 0 unless the first
+entry starts before 0; `nonEntries_tiling_nonneg` is the statement for tiers on non-negative times) -/
+theorem nonEntries_tiling (t : ITier Int) (hwf : t.WF) (hne : t.es ≠ []) :
     ∃ ns, t.getNonEntries = .ok ns ∧
-      (∀ n ∈ ns, n.l = "" ∧ n.s < n.e ∧ 0 ≤ n.s ∧ n.e ≤ t.hi) ∧
+      (∀ n ∈ ns, n.l = "" ∧ n.s < n.e ∧ tileStart t ≤ n.s ∧ n.e ≤ t.hi) ∧
       (∀ n ∈ ns, ∀ iv ∈ t.es, n.e ≤ iv.s ∨ iv.e ≤ n.s) ∧
       Disj ns ∧
-      (∀ x, 0 ≤ x → x < t.hi → covers (t.es ++ ns) x) ∧
+      (∀ x, tileStart t ≤ x → x < t.hi → covers (t.es ++ ns) x) ∧
       (∀ x, ∀ a ∈ t.es ++ ns, ∀ b ∈ t.es ++ ns, (a.s ≤ x ∧ x < a.e) → (b.s ≤ x ∧ x < b.e) → a = b) ∧
       Disj (sortIvs (t.es ++ ns)) ∧
-      (sortIvs (t.es ++ ns)).head?.map (·.s) = some 0 ∧
+      (sortIvs (t.es ++ ns)).head?.map (·.s) = some (tileStart t) ∧
       (sortIvs (t.es ++ ns)).getLast?.map (·.e) = some t.hi ∧
       Touch (sortIvs (t.es ++ ns)) := by
   obtain ⟨name, es, lo, hi⟩ := t
-  simp only at hne h0 ⊢
+  simp only at hne ⊢
   have hp : Pos es := hwf.pos
   have hd : Disj es := hwf.disj
   have hlo : ∀ iv ∈ es, lo ≤ iv.s := hwf.inLo
@@ -683,6 +705,9 @@ theorem nonEntries_tiling (t : ITier Int) (hwf : t.WF) (hne : t.es ≠ []) (h0 :
   have hfm : f ∈ f :: rest := by simp
   have hpf := hp f hfm
   have hpg := hp g hgm
+  have hz : tileStart ⟨name, f :: rest, lo, hi⟩ = min 0 f.s := rfl
+  rw [hz]
+  have hfg := (hglast f hfm).2
   -- the result of the call
   let pre : List (Iv Int) := if 0 < f.s then [⟨0, f.s, ""⟩] else []
   let post : List (Iv Int) := if g.e < hi then [⟨g.e, hi, ""⟩] else []
@@ -703,15 +728,15 @@ theorem nonEntries_tiling (t : ITier Int) (hwf : t.WF) (hne : t.es ≠ []) (h0 :
     · cases hn
   -- every non-entry: blank, positive, inside [0, hi], clear of the entries
   have hns : ∀ n ∈ pre ++ gapsOf (f :: rest) ++ post,
-      n.l = "" ∧ n.s < n.e ∧ 0 ≤ n.s ∧ n.e ≤ hi ∧ (n.e ≤ f.s ∨ g.e ≤ n.s ∨ n ∈ gapsOf (f :: rest)) := by
+      n.l = "" ∧ n.s < n.e ∧ min 0 f.s ≤ n.s ∧ n.e ≤ hi ∧ (n.e ≤ f.s ∨ g.e ≤ n.s ∨ n ∈ gapsOf (f :: rest)) := by
     intro n hn
     simp only [List.mem_append] at hn
     rcases hn with (hn | hn) | hn
     · obtain ⟨rfl, h⟩ := hpre n hn
       have := hhi f hfm
-      exact ⟨rfl, h, Int.le_refl _, by simp only; omega, Or.inl (Int.le_refl _)⟩
+      exact ⟨rfl, h, by simp only; omega, by simp only; omega, Or.inl (Int.le_refl _)⟩
     · obtain ⟨h1, h2, ⟨a, ha, hae⟩, ⟨b, hb, hbe⟩, _⟩ := g1 n hn
-      have := hlo a ha; have := hp a ha; have := hhi b hb; have := hp b hb
+      have := (hfirst a ha).1; have := hp a ha; have := hhi b hb; have := hp b hb
       exact ⟨h1, h2, by omega, by omega, Or.inr (Or.inr hn)⟩
     · obtain ⟨rfl, h⟩ := hpost n hn
       have := hlo g hgm
@@ -745,12 +770,13 @@ theorem nonEntries_tiling (t : ITier Int) (hwf : t.WF) (hne : t.es ≠ []) (h0 :
       · obtain ⟨_, _, _, ⟨c, hc, hce⟩, _⟩ := g1 a ha
         have := (hglast c hc).2; have := hp c hc
         omega
-  have hcov : ∀ x, 0 ≤ x → x < hi → covers ((f :: rest) ++ (pre ++ gapsOf (f :: rest) ++ post)) x := by
+  have hcov : ∀ x, min 0 f.s ≤ x → x < hi → covers ((f :: rest) ++ (pre ++ gapsOf (f :: rest) ++ post)) x := by
     intro x hx0 hxhi
     by_cases h1 : x < f.s
-    · refine ⟨⟨0, f.s, ""⟩, ?_, hx0, h1⟩
+    · have hf0 : 0 < f.s := by omega
+      refine ⟨⟨0, f.s, ""⟩, ?_, by simp only; omega, h1⟩
       simp only [List.mem_append, pre]
-      rw [if_pos (by omega)]; simp
+      rw [if_pos hf0]; simp
     · by_cases h2 : g.e ≤ x
       · refine ⟨⟨g.e, hi, ""⟩, ?_, h2, hxhi⟩
         simp only [List.mem_append, post]
@@ -781,13 +807,13 @@ theorem nonEntries_tiling (t : ITier Int) (hwf : t.WF) (hne : t.es ≠ []) (h0 :
   have hdsort := disj_sortIvs _ hposall hsd
   have hpsort : Pos (sortIvs ((f :: rest) ++ (pre ++ gapsOf (f :: rest) ++ post))) :=
     pos_perm hposall (sortIvs_perm _).symm
-  have hhi0 : 0 < hi := by have := hlo f hfm; have := hhi f hfm; omega
-  obtain ⟨t1, t2, t3⟩ := tiling_of_cover _ 0 hi hhi0 hpsort hdsort
+  have hhi0 : min 0 f.s < hi := by have := hhi f hfm; omega
+  obtain ⟨t1, t2, t3⟩ := tiling_of_cover _ (min 0 f.s) hi hhi0 hpsort hdsort
     (by
       intro iv hiv
       rw [mem_sortIvs] at hiv
       rcases List.mem_append.1 hiv with h | h
-      · have := hlo iv h; have := hhi iv h; omega
+      · have := (hfirst iv h).1; have := hhi iv h; omega
       · have := hns iv h; omega)
     (by
       intro x hx0 hxhi
@@ -795,6 +821,22 @@ theorem nonEntries_tiling (t : ITier Int) (hwf : t.WF) (hne : t.es ≠ []) (h0 :
       exact ⟨iv, mem_sortIvs.2 hiv, h⟩)
   exact ⟨_, hcall, fun n hn => ⟨(hns n hn).1, (hns n hn).2.1, (hns n hn).2.2.1, (hns n hn).2.2.2.1⟩,
     hclear, hdns, hcov, huniq, hdsort, t1, t2, t3⟩
+
+/-- **nonEntries_tiling on non-negative times** (`0 ≤ minTimestamp`, the usual case): the tiling starts at time 0 -/
+theorem nonEntries_tiling_nonneg (t : ITier Int) (hwf : t.WF) (hne : t.es ≠ []) (h0 : 0 ≤ t.lo) :
+    ∃ ns, t.getNonEntries = .ok ns ∧
+      (∀ n ∈ ns, n.l = "" ∧ n.s < n.e ∧ 0 ≤ n.s ∧ n.e ≤ t.hi) ∧
+      (∀ n ∈ ns, ∀ iv ∈ t.es, n.e ≤ iv.s ∨ iv.e ≤ n.s) ∧
+      Disj ns ∧
+      (∀ x, 0 ≤ x → x < t.hi → covers (t.es ++ ns) x) ∧
+      (∀ x, ∀ a ∈ t.es ++ ns, ∀ b ∈ t.es ++ ns, (a.s ≤ x ∧ x < a.e) → (b.s ≤ x ∧ x < b.e) → a = b) ∧
+      Disj (sortIvs (t.es ++ ns)) ∧
+      (sortIvs (t.es ++ ns)).head?.map (·.s) = some 0 ∧
+      (sortIvs (t.es ++ ns)).getLast?.map (·.e) = some t.hi ∧
+      Touch (sortIvs (t.es ++ ns)) := by
+  have h := nonEntries_tiling t hwf hne
+  rw [tileStart_nonneg t hwf h0] at h
+  exact h
 
 
 /-! ## 8. `invertIntervalList` -/
@@ -919,7 +961,8 @@ theorem invert_rejects (l : List (Int × Int)) (lo hi : Option Int) (h : ∃ iv 
   simp only [List.any_eq_true, Bool.not_eq_true', decide_eq_false_iff_not]
   exact ⟨iv, hiv, by omega⟩
 
-theorem invert_complement (l : List (Int × Int)) (lo hi : Int) (hne : l ≠ [])
+/-- `invert_complement` for a list that is already in time order -/
+theorem invert_complement_sorted (l : List (Int × Int)) (lo hi : Int) (hne : l ≠ [])
     (hpos : ∀ a ∈ l, a.1 < a.2) (hd : l.Pairwise (fun x y => x.2 ≤ y.1))
     (hlo : ∀ f, l.head? = some f → lo ≤ f.1) (hhi : ∀ g, l.getLast? = some g → g.2 ≤ hi) :
     ∃ inv, invertIntervalList l (some lo) (some hi) = .ok inv ∧
@@ -1023,6 +1066,108 @@ theorem invert_complement (l : List (Int × Int)) (lo hi : Int) (hne : l ≠ [])
       have := (g1 n hn).2.2.2 a (by simp only [List.mem_append]; exact Or.inl (Or.inr ha))
       omega
 
+
+theorem pairLe_trans (a b c : Int × Int) (h1 : pairLe a b = true) (h2 : pairLe b c = true) : pairLe a c = true := by
+  simp only [pairLe] at *
+  by_cases x1 : a.1 < b.1 <;> by_cases x2 : b.1 < a.1 <;> by_cases x3 : b.1 < c.1 <;> by_cases x4 : c.1 < b.1 <;>
+    by_cases x5 : a.1 < c.1 <;> by_cases x6 : c.1 < a.1 <;>
+    simp only [x1, x2, x3, x4, x5, x6, if_true, if_false, Bool.not_eq_true', decide_eq_false_iff_not,
+      Bool.false_eq_true] at h1 h2 ⊢ <;> omega
+
+theorem pairLe_total (a b : Int × Int) : (pairLe a b || pairLe b a) = true := by
+  simp only [pairLe, Bool.or_eq_true]
+  by_cases h1 : a.1 < b.1 <;> by_cases h2 : b.1 < a.1 <;>
+    simp only [h1, h2, if_true, if_false, Bool.not_eq_true', decide_eq_false_iff_not, Bool.false_eq_true,
+      or_false, false_or, or_true, true_or] <;> omega
+
+/-- **the complement helper on a list of pairwise disjoint intervals inside the bounds, in ANY order** (the code sorts
+the list itself; the former hypothesis "the list is in time order" is gone): the call succeeds, every returned interval
+has positive length and lies inside `[lo, hi]`, and list and result partition `[lo, hi)`.  What remains:
+`hpos` — enforced (`invert_rejects`: ArgumentError); `hne` — the empty list is `invert_empty`; `hd` (no two members
+overlap) and `hlo`/`hhi` (members inside the bounds) are NOT enforced by the code and are needed: see
+`invert_counterexample`. -/
+theorem invert_complement (l : List (Int × Int)) (lo hi : Int) (hne : l ≠ [])
+    (hpos : ∀ a ∈ l, a.1 < a.2) (hd : l.Pairwise (fun x y => x.2 ≤ y.1 ∨ y.2 ≤ x.1))
+    (hlo : ∀ a ∈ l, lo ≤ a.1) (hhi : ∀ a ∈ l, a.2 ≤ hi) :
+    ∃ inv, invertIntervalList l (some lo) (some hi) = .ok inv ∧
+      (∀ n ∈ inv, n.1 < n.2 ∧ lo ≤ n.1 ∧ n.2 ≤ hi) ∧
+      ∀ x, lo ≤ x → x < hi → (covers2 l x ∨ covers2 inv x) ∧ ¬ (covers2 l x ∧ covers2 inv x) := by
+  have hperm : (l.mergeSort pairLe).Perm l := List.mergeSort_perm l pairLe
+  have hmem : ∀ a, a ∈ l.mergeSort pairLe ↔ a ∈ l := fun a => hperm.mem_iff
+  have hsorted : (l.mergeSort pairLe).Pairwise (fun a b => pairLe a b = true) :=
+    List.pairwise_mergeSort (fun a b c => pairLe_trans a b c) pairLe_total l
+  have hsd : (l.mergeSort pairLe).Pairwise (fun x y => x.2 ≤ y.1 ∨ y.2 ≤ x.1) :=
+    hperm.symm.pairwise hd (fun hab => hab.symm)
+  have hchain : (l.mergeSort pairLe).Pairwise (fun x y => x.2 ≤ y.1) := by
+    refine List.Pairwise.imp_of_mem ?_ (hsorted.and hsd)
+    intro a b ha hb hab
+    obtain ⟨h1, h2⟩ := hab
+    have := hpos a ((hmem a).1 ha)
+    have := hpos b ((hmem b).1 hb)
+    simp only [pairLe] at h1
+    split at h1
+    · omega
+    · split at h1
+      · simp at h1
+      · omega
+  have hss : (l.mergeSort pairLe).mergeSort pairLe = l.mergeSort pairLe := List.mergeSort_of_pairwise hsorted
+  have hcall : invertIntervalList l (some lo) (some hi) = invertIntervalList (l.mergeSort pairLe) (some lo) (some hi) := by
+    have hc1 : ¬ (l.any fun iv => !decide (iv.1 < iv.2)) = true := by
+      simp only [List.any_eq_true, Bool.not_eq_true', decide_eq_false_iff_not, not_exists, not_and, Decidable.not_not]
+      exact hpos
+    have hc2 : ¬ ((l.mergeSort pairLe).any fun iv => !decide (iv.1 < iv.2)) = true := by
+      simp only [List.any_eq_true, Bool.not_eq_true', decide_eq_false_iff_not, not_exists, not_and, Decidable.not_not]
+      exact fun a ha => hpos a ((hmem a).1 ha)
+    unfold invertIntervalList
+    rw [if_neg hc1, if_neg hc2, hss]
+  have hne' : l.mergeSort pairLe ≠ [] := by
+    intro h
+    rw [h] at hperm
+    exact hne hperm.symm.eq_nil
+  obtain ⟨inv, e, h1, h2⟩ := invert_complement_sorted (l.mergeSort pairLe) lo hi hne'
+    (fun a ha => hpos a ((hmem a).1 ha)) hchain
+    (fun f hf => hlo f ((hmem f).1 (List.mem_of_mem_head? hf)))
+    (fun g hg => hhi g ((hmem g).1 (List.mem_of_getLast? hg)))
+  have hcov : ∀ x, covers2 (l.mergeSort pairLe) x ↔ covers2 l x := by
+    intro x
+    constructor
+    · rintro ⟨iv, hiv, h⟩; exact ⟨iv, (hmem iv).1 hiv, h⟩
+    · rintro ⟨iv, hiv, h⟩; exact ⟨iv, (hmem iv).2 hiv, h⟩
+  refine ⟨inv, hcall.trans e, h1, ?_⟩
+  intro x hx1 hx2
+  have := h2 x hx1 hx2
+  rw [hcov x] at this
+  exact this
+
+/-- **FINDING (replayed on `utils.invertIntervalList`) — the excluded cases of `hd`, `hlo`, `hhi`.**  The property
+speaks of "the complement of an interval list within bounds", for "all interval lists and bounds".
+1. two members overlap: `invertIntervalList([(1,3),(2,5)], 0, 6)` returns `[(0,1),(3,2),(5,6)]` — the pair `(3, 2)` is not an
+   interval (start after end); expected `[(0,1),(5,6)]`.
+2. a member lies before the lower bound: `invertIntervalList([(1,2),(4,5)], 3, 6)` returns `[(2,4),(5,6)]` — `(2, 4)` sticks out
+   of the bounds `[3, 6]`; expected `[(3,4),(5,6)]`.
+3. a member lies beyond the upper bound: `invertIntervalList([(1,2),(4,5)], 0, 3)` returns `[(0,1),(2,4)]` — `(2, 4)` sticks out
+   of `[0, 3]`; expected `[(0,1),(2,3)]`.
+4. reversed bounds with an empty list: `invertIntervalList([], 5, 2)` returns `[(5,2)]`.
+None of these raises.  (A list in a shuffled order is handled correctly: the function sorts, `invert_complement`.) -/
+theorem invert_counterexample :
+    invertIntervalList [((1 : Int), (3 : Int)), (2, 5)] (some 0) (some 6) = .ok [(0, 1), (3, 2), (5, 6)] ∧
+    invertIntervalList [((1 : Int), (2 : Int)), (4, 5)] (some 3) (some 6) = .ok [(2, 4), (5, 6)] ∧
+    invertIntervalList [((1 : Int), (2 : Int)), (4, 5)] (some 0) (some 3) = .ok [(0, 1), (2, 4)] ∧
+    invertIntervalList ([] : List (Int × Int)) (some 5) (some 2) = .ok [(5, 2)] := by
+  have s1 : [((1 : Int), (3 : Int)), (2, 5)].mergeSort pairLe = [(1, 3), (2, 5)] :=
+    List.mergeSort_of_pairwise (by simp [pairLe])
+  have s2 : [((1 : Int), (2 : Int)), (4, 5)].mergeSort pairLe = [(1, 2), (4, 5)] :=
+    List.mergeSort_of_pairwise (by simp [pairLe])
+  refine ⟨?_, ?_, ?_, invert_empty 5 2⟩
+  · unfold invertIntervalList
+    rw [if_neg (by simp), s1]
+    simp
+  · unfold invertIntervalList
+    rw [if_neg (by simp), s2]
+    simp
+  · unfold invertIntervalList
+    rw [if_neg (by simp), s2]
+    simp
 
 /-! ## 5. `getValueAtTime`, exact branch -/
 
@@ -1212,6 +1357,16 @@ theorem valueAt_fuzzy_nearest (ts : Int) (data : Array (Int × Nat)) (hne : data
 
 
 /-! ## 5b. the multi-point loop of `getValuesAtPoints` (exact matching) -/
+
+/-- the excluded case of `hne`: fuzzy matching against an EMPTY sample series has no nearest sample; the lookup raises
+the built-in `IndexError` (`sortedDataTupleList[i][0]`), on the real function and in the model, for every start index.
+(Exact matching returns "no sample" for every point: `valuesAtPoints_exact_spec` has no such hypothesis.)  Replayed:
+`PointTier('P',[(1,'a')],0,10).getValuesAtPoints([], True)` raises IndexError; with `False` it returns `[()]`. -/
+theorem valueAt_fuzzy_empty (ts : Int) (i : Int) :
+    valueAtFuzzy ts (#[] : Array (Int × Nat)) i = .error .IndexError := by
+  unfold valueAtFuzzy
+  simp only [List.size_toArray, List.length_nil, Int.natCast_zero]
+  rw [if_pos (by split <;> omega)]
 
 def exactGo (sorted : Array (Int × Nat)) : List (Pt Int) → Nat → List (Option (Int × Nat)) → List (Option (Int × Nat))
   | [], _, out => out
@@ -1403,8 +1558,18 @@ theorem exData_sorted : exData.toList.Pairwise (fun a b => a.1 ≤ b.1) := by
 
 /-- the hypotheses of `nonEntries_tiling` are satisfiable -/
 theorem exTier_tiling : ∃ ns, exTier.getNonEntries = .ok ns ∧ Touch (sortIvs (exTier.es ++ ns)) := by
-  obtain ⟨ns, h, _, _, _, _, _, _, _, _, ht⟩ := nonEntries_tiling exTier exTier_wf (by simp [exTier]) (by simp [exTier])
+  obtain ⟨ns, h, _, _, _, _, _, _, _, _, ht⟩ := nonEntries_tiling exTier exTier_wf (by simp [exTier])
   exact ⟨ns, h, ht⟩
+
+/-- a well-formed tier that starts before time 0 (outside the former hypothesis `0 ≤ t.lo`): the tiling starts at the
+first entry's start, `-3`; the stretch `[-5, -3)` before it is not reported (replayed on the class:
+`IntervalTier('T',[(-3,-1,'a'),(2,3,'b')],-5,5).getNonEntries()` gives `[(-1,2,''),(3,5,'')]`) -/
+def negTier : ITier Int := ⟨"T", [⟨-3, -1, "a"⟩, ⟨2, 3, "b"⟩], -5, 5⟩
+theorem negTier_wf : negTier.WF := by
+  refine ⟨?_, ?_, ?_, ?_, ?_, ?_⟩ <;> simp [negTier, Pos, Disj, Stripped] <;> decide
+example : tileStart negTier = -3 := by decide
+#guard negTier.getNonEntries.toOption == some [⟨-1, 2, ""⟩, ⟨3, 5, ""⟩]
+#guard (⟨"T", [⟨2, 3, "b"⟩], -5, 5⟩ : ITier Int).getNonEntries.toOption == some [⟨0, 2, ""⟩, ⟨3, 5, ""⟩]
 
 #guard exTier.getNonEntries.toOption == some [⟨0, 10, ""⟩, ⟨60, 80, ""⟩, ⟨90, 100, ""⟩]
 #guard (exTier.getNonEntries.toOption.map fun ns => sortIvs (exTier.es ++ ns)) ==
